@@ -6,7 +6,7 @@ x=$1; k=$2; src=/tmp/seed/$x/out/$k
 [ -f $src/patch.diff ] || { echo "no patch in $src"; exit 2; }
 prop=$(grep -o -i -m1 'breaks: *C[0-9][0-9]' $src/notes.md | grep -o 'C[0-9][0-9]')
 [ -n "$prop" ] || prop=C00
-name=r4-$x-$k
+name=${ROUND:-r4}-$x-$k
 dst=/verif/seeded/$prop-$name
 wt=/tmp/mut/confirm_$name
 mkdir -p /tmp/mut; git -C /repo worktree add -q --detach $wt HEAD || exit 3
